@@ -1738,3 +1738,128 @@ func ruleQueryStringsWhole(c *chk.Ctx) {
 		c.Undecided("PROV.params", f, "string parameters", f.Pos(), "no parameter store found in ParseQuery")
 	}
 }
+
+// ruleReplyKeyWhole (C04, C09): the key under which an inbound reply is
+// matched against the table of pending requests is the reply's id text as a
+// whole (after null-normalisation) — never a part of it or a respelling: the
+// requester registered the exact text it sent, and "7" and 7 are different
+// ids. A key cut out of the id text lets a reply with a different id consume
+// another request's slot.
+func ruleReplyKeyWhole(c *chk.Ctx, table *types.Var, what string) {
+	n := 0
+	for _, f := range pkgFuncs(c, c.M.Pkg) {
+		ir.Instrs(f, func(ins ssa.Instruction) {
+			lk, ok := ins.(*ssa.Lookup)
+			if !ok || !chk.LoadsField(lk.X, table) {
+				return
+			}
+			stop := func(v ssa.Value) bool {
+				switch x := v.(type) {
+				case *ssa.Slice:
+					b, isB := x.Type().Underlying().(*types.Basic)
+					return isB && b.Info()&types.IsString != 0
+				case *ssa.BinOp:
+					return x.Op == token.ADD
+				case *ssa.UnOp:
+					if fa, isFA := x.X.(*ssa.FieldAddr); isFA && ir.FieldVar(fa) == c.M.JID {
+						return true
+					}
+				}
+				return false
+			}
+			inbound := false
+			var bad []string
+			for _, src := range c.P.SourcesStop(lk.Index, stop) {
+				switch x := src.(type) {
+				case *ssa.Slice:
+					bad = append(bad, "a substring taken at "+c.P.Pos(x.Pos()))
+				case *ssa.BinOp:
+					bad = append(bad, "a concatenation at "+c.P.Pos(x.Pos()))
+				case *ssa.UnOp:
+					inbound = true
+				}
+			}
+			if !inbound {
+				return
+			}
+			n++
+			c.Check(len(bad) == 0, "TOKEN.key", f, what+": reply matched by its whole id", lk.Pos(), "the look-up key is the message's id text as a whole", "the key used to match a reply is "+strings.Join(bad, ", ")+" rather than the id text itself: a reply bearing a different id (\"7\" for 7) would be taken for the pending request's reply")
+		})
+	}
+	if n == 0 {
+		c.Undecided("TOKEN.key", nil, what+": reply key", 0, "no look-up of an inbound id found")
+	}
+}
+
+// ruleHandedOffChannelNotClosed (C10): a wrapper that hands a channel to a
+// Server (Start) or a Client (NewClient) gives up ownership: from then on the
+// channel is closed by that server or client alone, once, under its lock. In
+// the packages built on top of the root package, a Close of a channel value
+// that the same function also hands off is allowed only on a path that never
+// reaches the hand-off (the "no server will own this connection" path) — not
+// after it, and not from a goroutine or deferred function.
+func ruleHandedOffChannelNotClosed(c *chk.Ctx) {
+	n := 0
+	for _, pkg := range []*ssa.Package{c.M.ServerPkg, c.M.JhttpPkg} {
+		for _, f := range pkgFuncs(c, pkg) {
+			ir.Calls(f, func(ci ssa.CallInstruction) {
+				callee := ci.Common().StaticCallee()
+				if callee == nil || callee.Pkg != c.M.Pkg {
+					return
+				}
+				var ch ssa.Value
+				switch {
+				case callee.Name() == "Start" && ir.RecvNamed(callee) == c.M.Server && len(ci.Common().Args) == 2:
+					ch = ci.Common().Args[1]
+				case callee.Name() == "NewClient" && len(ci.Common().Args) >= 1:
+					ch = ci.Common().Args[0]
+				default:
+					return
+				}
+				n++
+				origin := c.P.Canon(ch)
+				sameChan := func(v ssa.Value) bool {
+					if c.P.Canon(v) == origin {
+						return true
+					}
+					for _, src := range c.P.SourcesStop(v, func(x ssa.Value) bool { return x == origin }) {
+						if src == origin {
+							return true
+						}
+					}
+					return false
+				}
+				bad := ""
+				for _, g := range c.P.Ext(f) {
+					scope := []*ssa.Function{g}
+					scope = append(scope, g.AnonFuncs...)
+					for _, h := range scope {
+						ir.Calls(h, func(cl ssa.CallInstruction) {
+							cc := cl.Common()
+							if !cc.IsInvoke() || cc.Method.Name() != "Close" || !sameChan(cc.Value) {
+								return
+							}
+							if h != f {
+								bad = c.P.Pos(cl.Pos()) + " (in " + ir.Name(h) + ")"
+								return
+							}
+							if _, isCall := cl.(*ssa.Call); !isCall {
+								bad = c.P.Pos(cl.Pos()) + " (deferred or go)"
+								return
+							}
+							r1, _ := ir.Reaches(ci.(ssa.Instruction), func(i ssa.Instruction) bool { return i == cl.(ssa.Instruction) }, nil)
+							r2, _ := ir.Reaches(cl.(ssa.Instruction), func(i ssa.Instruction) bool { return i == ci.(ssa.Instruction) }, nil)
+							if r1 || r2 {
+								bad = c.P.Pos(cl.Pos())
+							}
+						})
+					}
+				}
+				c.Check(bad == "", "WHO.close", f, "a handed-off channel is closed by its new owner only", ci.Pos(), "no Close of the channel on a path with the hand-off", "the channel handed to "+callee.Name()+" is also closed by the wrapper at "+bad+": it would be closed twice, and the wrapper's Close runs without the owner's lock, so it can overlap a Send")
+			})
+		}
+	}
+	if n == 0 {
+		c.Undecided("WHO.close", nil, "hand-off sites", 0, "no Start/NewClient hand-off found in the server and jhttp packages")
+	}
+}
